@@ -333,3 +333,101 @@ Theorem refcount_tracks_handles : forall ls, ok ls ->
 Proof.
   intros ls Hok. pose proof (Inv_run ls Hok) as HI. split; [apply (inv_ref_alive _ HI)|apply (inv_ref_dead _ HI)].
 Qed.
+
+(** the proto connection is only ever closed together with setting the error *)
+Definition ic_ok (s : st) : Prop := inner_closed s = true -> closed s = true.
+
+Lemma try_op_inner : forall s o n s' r, try_op s o n = Some (s', r) -> inner_closed s' = inner_closed s.
+Proof.
+  intros s o n s' r Htry.
+  destruct o; cbn [try_op] in Htry; unfold closed in Htry;
+    repeat match type of Htry with
+           | context [match ?x with _ => _ end] =>
+               lazymatch x with
+               | Some _ => fail
+               | _ => destruct x; cbv iota in Htry; try discriminate Htry
+               end
+           end;
+    injection Htry as <- <-; sim_goal; reflexivity.
+Qed.
+Lemma inner_release : forall s t, inner_closed (release s t) = inner_closed s.
+Proof.
+  intros s t; unfold release. destruct (pend s t) as [o|]; [|reflexivity].
+  destruct o; cbn [notify_of]; cbn_st; reflexivity.
+Qed.
+Lemma inner_register : forall s t o, inner_closed (register s t o) = inner_closed s.
+Proof.
+  intros s t o; unfold register.
+  destruct o; cbn [notify_of]; cbn_st; try destruct (memb (skeys s) s0); cbn_st; reflexivity.
+Qed.
+Lemma inner_app_poll : forall s t o n, inner_closed (fst (app_poll s t o n)) = inner_closed s.
+Proof.
+  intros s t o n; unfold app_poll. destruct (poll_ok s t o n); cbn [negb fst]; [|reflexivity].
+  match goal with |- context [try_op ?x o n] => destruct (try_op x o n) as [[s' r]|] eqn:Htry end; cbn [fst].
+  - rewrite (try_op_inner _ _ _ _ _ Htry). cbn_st. apply inner_release.
+  - rewrite inner_register. cbn_st. apply inner_release.
+Qed.
+Lemma inner_drop_ref : forall s h, inner_closed (drop_ref s h) = true ->
+  inner_closed s = true \/ closed (drop_ref s h) = true.
+Proof.
+  intros s h H. unfold drop_ref in *. cbn_st_all.
+  destruct (Z.ltb 1 (refcnt s)); [left; exact H|].
+  destruct (inner_closed s); [left; reflexivity|]. right. apply closed_close_conn.
+Qed.
+Lemma inner_drv_events : forall evs s, inner_closed (fold_left drv_event evs s) = inner_closed s.
+Proof.
+  induction evs as [|e evs IH]; intros s; cbn [fold_left]; [reflexivity|].
+  rewrite IH. pose proof (drv_event_tasks s e) as F. decompose [and] F. assumption.
+Qed.
+
+Lemma ic_ok_step : forall s l, ic_ok s -> ic_ok (step' s l).
+Proof.
+  intros s l Hs H'. destruct (inner_closed s) eqn:Eic.
+  { apply closed_is_stable. apply Hs. exact Eic. }
+  revert H'. unfold step', step.
+  destruct l as [t o n|t|evs| |k|k|k| | |k|k]; cbn [fst].
+  - rewrite inner_app_poll. congruence.
+  - rewrite inner_release. congruence.
+  - unfold drv_poll. destruct (driver_alive s); cbn [negb]; [|cbn [fst]; congruence].
+    match goal with |- context [drained ?x] => set (s2 := x) end.
+    assert (E2 : inner_closed s2 = false) by (unfold s2; rewrite inner_drv_events; cbn_st; exact Eic).
+    destruct (drained s2); [|cbn_st; congruence].
+    intros H'. apply inner_drop_ref in H' as [H'|H']; [cbn_st_in H'; congruence|exact H'].
+  - destruct (Z.ltb 0 (nhandles s)); [intros _; apply closed_close_conn|congruence].
+  - destruct (recv_h s k); [|cbn [fst]; congruence]. destruct (rborrow s k); [cbn [fst]; congruence|]. cbn [fst].
+    sim_goal. congruence.
+  - destruct (send_h s k); [|cbn [fst]; congruence]. destruct (wborrow s k); [cbn [fst]; congruence|]. cbn [fst].
+    sim_goal. congruence.
+  - destruct (send_h s k); [|cbn [fst]; congruence]. destruct (wborrow s k); [cbn [fst]; congruence|]. cbn [fst].
+    sim_goal. congruence.
+  - destruct (Z.ltb 0 (nhandles s)); [|cbn [fst]; congruence]. sim_goal. congruence.
+  - destruct (Z.ltb 0 (nhandles s)); [|cbn [fst]; congruence].
+    intros H'. apply inner_drop_ref in H' as [H'|H']; [congruence|exact H'].
+  - destruct (recv_h s k); [|cbn [fst]; congruence]. destruct (rborrow s k); [cbn [fst]; congruence|]. cbn [fst].
+    intros H'. apply inner_drop_ref in H' as [H'|H']; [|exact H']. exfalso. revert H'. cbn_st.
+    destruct (all_read s k); [cbn_st; congruence|]. unfold closed; cbn_st. destruct (err s); [cbn_st; congruence|].
+    sim_goal. congruence.
+  - destruct (send_h s k); [|cbn [fst]; congruence]. destruct (wborrow s k); [cbn [fst]; congruence|]. cbn [fst].
+    intros H'. apply inner_drop_ref in H' as [H'|H']; [|exact H']. exfalso. revert H'. cbn_st.
+    unfold closed; cbn_st. destruct (err s); [cbn_st; congruence|].
+    sim_goal. congruence.
+Qed.
+Lemma ic_ok_run : forall ls, ic_ok (run ls).
+Proof.
+  intros ls. unfold run. assert (H : ic_ok init) by (unfold ic_ok; cbn; discriminate).
+  revert H. generalize init. induction ls as [|l ls IH]; intros s H; [exact H|].
+  cbn [fold_left]. apply IH, ic_ok_step, H.
+Qed.
+
+Theorem last_handle_drop_closes : forall ls, ok ls ->
+  driver_alive (run ls) = true -> nhandles (run ls) = 1%Z ->
+  closed (step' (run ls) HDropConn) = true /\ inner_closed (step' (run ls) HDropConn) = true.
+Proof.
+  intros ls Hok Ha Hn. pose proof (Inv_run ls Hok) as HI. pose proof (ic_ok_run ls) as Hic.
+  pose proof (inv_ref_alive _ HI Ha) as Hr. rewrite Hn in Hr.
+  unfold step', step; cbn [fst]. rewrite Hn. cbn [Z.ltb Z.compare Pos.compare].
+  unfold drop_ref. rewrite Hr. cbn [Z.ltb Z.compare Pos.compare Pos.compare_cont]. cbn_st.
+  destruct (inner_closed (run ls)) eqn:Eic.
+  - split; [|cbn_st; exact Eic]. unfold closed; cbn_st. apply Hic, Eic.
+  - split; [apply closed_close_conn|]. sim_goal. reflexivity.
+Qed.
